@@ -11,30 +11,37 @@ impl<W> DistanceMatrix<W> {
     /// entry in row u, column v
     spec fn at(&self, u: int, v: int) -> W { self.dist@[u * self.order + v] }
 
-    /*@fn impl=DistanceMatrix trait=Index implhas='Index<(usize, usize)>' name=index rename=index_pair subst=Self::Output=>W
+    // No precondition on the index beyond "the cell number is computable": safe indexing PANICS on a cell outside the buffer
+    // (rule E4b), so for ANY index pair the call either panics or returns the addressed cell of the buffer — in particular
+    // it never reads outside `dist` (C13).  For an in-range pair of a well-formed matrix the returned cell is entry (u, v).
+    /*@fn impl=DistanceMatrix trait=Index implhas='Index<(usize, usize)>' name=index rename=index_pair subst=Self::Output=>W safeindex
     requires
-        self.wf(),
-        index.0 < self.order,
-        index.1 < self.order,
+        index.0 * self.order + index.1 <= usize::MAX,
     ensures
-        *r == self.at(index.0 as int, index.1 as int),
+        index.0 * self.order + index.1 < self.dist@.len(),
+        *r == self.dist@[index.0 * self.order + index.1],
+        self.wf() && index.0 < self.order && index.1 < self.order ==> *r == self.at(index.0 as int, index.1 as int),
     @fn_start
-        proof { lemma_cell_bound(index.0 as int, index.1 as int, self.order as int); }
+        proof {
+            assert(index.0 * self.order >= 0) by (nonlinear_arith) requires index.0 >= 0, self.order >= 0;
+        }
     @*/
 
-    /*@fn impl=DistanceMatrix trait=IndexMut implhas='IndexMut<(usize, usize)>' name=index_mut rename=index_pair_mut subst=Self::Output=>W
+    /*@fn impl=DistanceMatrix trait=IndexMut implhas='IndexMut<(usize, usize)>' name=index_mut rename=index_pair_mut subst=Self::Output=>W safeindex
     requires
-        old(self).wf(),
-        index.0 < old(self).order,
-        index.1 < old(self).order,
+        index.0 * old(self).order + index.1 <= usize::MAX,
     ensures
+        index.0 * old(self).order + index.1 < old(self).dist@.len(),
         final(self).order == old(self).order,
         final(self).infinity == old(self).infinity,
         final(self).dist@.len() == old(self).dist@.len(),
-        *r == old(self).at(index.0 as int, index.1 as int),
+        *r == old(self).dist@[index.0 * old(self).order + index.1],
+        old(self).wf() && index.0 < old(self).order && index.1 < old(self).order ==> *r == old(self).at(index.0 as int, index.1 as int),
         final(self).dist@ == old(self).dist@.update(index.0 * old(self).order + index.1, *final(r)),
     @fn_start
-        proof { lemma_cell_bound(index.0 as int, index.1 as int, self.order as int); }
+        proof {
+            assert(index.0 * self.order >= 0) by (nonlinear_arith) requires index.0 >= 0, self.order >= 0;
+        }
     @*/
 }
 
